@@ -1,72 +1,117 @@
 /-
-Helper lemmas for C09, part 8: the multi-tick correspondence between a nested simulation and
-its flattening.  `Corr` relates the two simulation states between ticks; the whole-run theorem
-follows from three facts about it (established after the initial tick, the same next tick time,
-preserved by one more tick).
+Helper lemmas for C09, part 8c: the whole-run theorem from the correspondence `Corr`
+(established after the initial tick, giving the same next tick time, preserved by one more tick).
 -/
-import TickitModel.Lemmas.FlattenMain
-import TickitModel.Lemmas.MiscLemmas
+import TickitModel.Lemmas.FlattenEqs
+import TickitModel.Lemmas.FlattenWake
+import TickitModel.Lemmas.FlattenRunGen
+import TickitModel.Lemmas.FlattenGen
 
 namespace Tickit
 
-/-- the nested state `st` and the flat state `st'` correspond: same device states, same update
-counts, same observations, same pending callbacks — a callback requested inside a system is
-represented upwards, level by level, by the minimum of the inner wakeups. -/
-structure Corr (S : Static) (st st' : SimSt) : Prop where
-  devs : ∀ d, S.isDevice d →
-    (agetD st.devs d {}).lastOutputs = (agetD st'.devs d {}).lastOutputs ∧
-    MapEq (agetD st.devs d {}).deviceInputs (agetD st'.devs d {}).deviceInputs
-  count : ∀ d, S.isDevice d → agetD st.count d 0 = agetD st'.count d 0
-  obs : ∀ d, ObsEq (st.obsOf d) (st'.obsOf d)
-  /-- every nested scheduler is past its initial tick and has no queued interrupt -/
-  started : ∀ s, S.isSys s = true → (st.sched s).firstDone = true ∧ (st.sched s).interrupts = []
-  /-- a device's pending callback: in its own scheduler / in the flat master -/
-  wake_dev : ∀ d P, S.isDevice d → alookup S.parent d = some P →
-    alookup (st'.sched "").wake d = alookup (st.sched P).wake d
-  /-- a system's pending callback at its parent is the minimum of its inner wakeups -/
-  wake_sys : ∀ s P, S.isSys s = true → alookup S.parent s = some P →
-    alookup (st.sched P).wake s = (firstWakeups (st.sched s).wake).2
-  wake_keys : ∀ L c, c ∈ akeys (st.sched L).wake → alookup S.parent c = some L
-  wake_keys' : ∀ c, c ∈ akeys (st'.sched "").wake → S.isDevice c
-  wake_unique : ∀ L, UniqueKeys (st.sched L).wake
-  wake_unique' : UniqueKeys (st'.sched "").wake
+/-! ### after the initial tick, and one more tick -/
 
-/-- the master serves (removes) the wakeups of `cs` before the tick -/
-def SimSt.delWake (st : SimSt) (cs : List Comp) : SimSt :=
-  let sc := st.sched ""
-  { st with scheds := upsert st.scheds "" { sc with wake := delWakeups sc.wake cs } }
-
-/-- the state of the master scheduler apart from the simulation state -/
-def MasterSt.SameClock (m m' : MasterSt) : Prop :=
-  m.tickerTime = m'.tickerTime ∧ m.lastReal = m'.lastReal ∧ m.now = m'.now
-
-/-! ### the three facts (the first two are open, see the report) -/
+theorem masterInitial_tick {S : Static} {orc : Oracle} {fuel : Nat} {t0 : SimTime} {now : Int}
+    {m : MasterSt} {tr : TickRec} (h : masterInitial S orc fuel t0 now = .ok (m, tr)) :
+    ∃ L out, S.level "" = some L ∧
+      tickLevel S orc fuel "" t0 L.wiring.components [] {} = .ok (m.sim, out) := by
+  unfold masterInitial at h
+  split at h
+  · cases h
+  · rename_i L hL
+    simp only [] at h
+    split at h
+    · cases h
+    · rename_i st out hr
+      simp only [Except.ok.injEq, Prod.mk.injEq] at h
+      obtain ⟨rfl, _⟩ := h
+      exact ⟨L, out, hL, hr⟩
 
 /-- **after the initial tick** the two states correspond -/
 theorem corr_initial {S : Static} (hS : S.Valid) {orc : Oracle} {n : Nat} (hst : S.ResolveStable n)
-    {fuel fuel' : Nat} {t0 : SimTime} {now : Int} {m m' : MasterSt} {tr tr' : TickRec}
-    (h : masterInitial S orc fuel t0 now = .ok (m, tr))
+    (hrank : S.FlatRank n) {fuel fuel' : Nat} {t0 : SimTime} {now : Int} {m m' : MasterSt}
+    {tr tr' : TickRec} (h : masterInitial S orc fuel t0 now = .ok (m, tr))
     (h' : masterInitial (S.flatten n) orc fuel' t0 now = .ok (m', tr')) :
     Corr S m.sim m'.sim := by
-  sorry
+  have hS' : (S.flatten n).Valid := hS.flatten hrank
+  obtain ⟨L, out, hL, ht⟩ := masterInitial_tick h
+  obtain ⟨L', out', hL', ht'⟩ := masterInitial_tick h'
+  obtain ⟨new, E, hsch⟩ := tick_eqs_initial hS hst hL ht
+  obtain ⟨new', E', hsch'⟩ := tick_eqs_initial hS' (S.flatten_resolveStable n) hL' ht'
+  exact corr_of_tickEqs hS hrank hS' (DevCorr.empty S) (fun _ _ => Iff.rfl) E E' hsch hsch'
 
-/-- **same next tick**: the earliest pending callback of the nested master is the earliest
-pending callback of any device -/
-theorem Corr.firstWakeups_eq {S : Static} (hS : S.Valid) {st st' : SimSt} (hc : Corr S st st') :
-    (firstWakeups (st.sched "").wake).2 = (firstWakeups (st'.sched "").wake).2 := by
-  sorry
+theorem SimSt.delWake_devs (st : SimSt) (cs : List Comp) : (st.delWake cs).devs = st.devs := rfl
+theorem SimSt.delWake_count (st : SimSt) (cs : List Comp) : (st.delWake cs).count = st.count := rfl
+
+theorem stepResp_delWake (orc : Oracle) (st : SimSt) (cs : List Comp) (c : Comp) :
+    stepResp orc (st.delWake cs) c = stepResp orc st c := rfl
+
+theorem stepChg_delWake (orc : Oracle) (st : SimSt) (cs : List Comp) (c : Comp) :
+    stepChg orc (st.delWake cs) c = stepChg orc st c := rfl
 
 /-- **one more tick**: if the next tick of the nested simulation completes, so does the next
 tick of the flat one, and the resulting states correspond again -/
 theorem corr_tick {S : Static} (hS : S.Valid) {orc : Oracle} {n : Nat} (hst : S.ResolveStable n)
-    {fuel : Nat} {st st' : SimSt} (hc : Corr S st st') {w : SimTime} {comps comps' : List Comp}
+    (hrank : S.FlatRank n) {fuel : Nat} {st st' : SimSt} (hc : Corr S st st') {w : SimTime}
+    {comps comps' : List Comp}
     (hfw : firstWakeups (st.sched "").wake = (comps, some w))
     (hfw' : firstWakeups (st'.sched "").wake = (comps', some w))
     {st2 : SimSt} {out : List (Port × V)}
     (ht : tickLevel S orc fuel "" w comps [] (st.delWake comps) = .ok (st2, out)) :
     ∃ st2' out', tickLevel (S.flatten n) orc 1 "" w comps' [] (st'.delWake comps') = .ok (st2', out') ∧
       Corr S st2 st2' := by
-  sorry
+  have hS' : (S.flatten n).Valid := hS.flatten hrank
+  have hmemL : (⟨"", S.flatW n⟩ : Level) ∈ (S.flatten n).levels := by
+    rw [S.flatten_levels]; simp
+  obtain ⟨new, E, hsch⟩ := tick_eqs hS hst hc.schedOK hfw ht
+  obtain ⟨hcs', _, _, _⟩ := firstWakeups_spec _ hc.wake_unique' comps' w hfw'
+  -- the devices with a due callback are the same on both sides
+  have hroot : ∀ d, S.isDevice d → (S.DueAt st w d ↔ (S.flatten n).DueAt st' w d) := by
+    intro d hd
+    have hp' : alookup (S.flatten n).parent d = some "" := by
+      rw [S.flatten_parent, if_pos (Static.mem_devices_iff.2 hd)]
+    constructor
+    · rintro ⟨P, w', hP, hw', hle⟩
+      exact ⟨"", w', hp', by rw [hc.wake_dev d P hd hP]; exact hw', hle⟩
+    · rintro ⟨P', w', hP', hw', hle⟩
+      rw [hp'] at hP'; cases hP'
+      obtain ⟨P, hP⟩ := Option.isSome_iff_exists.1 hd.1
+      exact ⟨P, w', hP, by rw [← hc.wake_dev d P hd hP]; exact hw', hle⟩
+  -- the flat tick cannot fail
+  have hUroot : ∀ c ∈ comps', c ∈ new.map Obs.comp := by
+    intro c hcm
+    have hl := (hcs' c).1 hcm
+    have hd := hc.wake_keys' c (mem_akeys_of_alookup_eq_some hl)
+    have hp' : alookup (S.flatten n).parent c = some "" := by
+      rw [S.flatten_parent, if_pos (Static.mem_devices_iff.2 hd)]
+    exact (E.upd_iff c hd).2 (Or.inl ((hroot c hd).2 ⟨"", w, hp', hl, Int.le_refl _⟩))
+  obtain ⟨⟨st2', out'⟩, hr⟩ := flat_tickLevel_gen (S := S.flatten n) (S.flatten_isSys n)
+    (S.flatten_level n) (hS'.routerOK hmemL) (hS'.acyclic _ hmemL) w (roots := comps')
+    (by
+      intro r hr
+      have hl := (hcs' r).1 hr
+      have hd := hc.wake_keys' r (mem_akeys_of_alookup_eq_some hl)
+      exact (S.flatW_components hS n r).2 (Static.mem_devices_iff.2 hd))
+    (st'.delWake comps') (fun c => c ∈ new.map Obs.comp)
+    (by
+      intro c hcm
+      obtain ⟨o, ho, rfl⟩ := List.mem_map.1 hcm
+      obtain ⟨_, r, _, _, _, hr, hra, _⟩ := E.upd o ho
+      refine ⟨r, ?_, hra⟩
+      rw [stepResp_delWake, ← hc.devCorr.stepResp_eq orc (E.dev o ho).2]
+      exact hr)
+    hUroot
+    (by
+      intro c a p q v hconn ha hv
+      obtain ⟨hcd, hfi⟩ := (S.flatW_conn hS n _ _ _ _).1 hconn
+      have hd := Static.mem_devices_iff.1 hcd
+      have had := Static.mem_devices_iff.1 (hS.flatInputs_device hfi)
+      rw [stepChg_delWake, ← hc.devCorr.stepChg_eq orc had] at hv
+      exact (E.upd_iff c hd).2 (Or.inr ⟨q, v, a, p, hfi, ha, hv⟩))
+    0
+  have hsch0' : SchedOK (S.flatten n) st' := hc.flat_sched.flatten_fuel n
+  obtain ⟨new', E', hsch'⟩ := tick_eqs hS' (S.flatten_resolveStable n) hsch0' hfw' hr
+  exact ⟨st2', out', hr, corr_of_tickEqs hS hrank hS' hc.devCorr hroot E E' hsch hsch'⟩
 
 /-! ### the whole run -/
 
@@ -95,7 +140,7 @@ theorem dueReal_congr {m m' : MasterSt} (h : m.SameClock m') (s : Speed) (w : Si
   simp [dueReal, h1, h2, h3]
 
 theorem masterRun_corr {S : Static} (hS : S.Valid) {orc : Oracle} {n : Nat} (hst : S.ResolveStable n)
-    {fuel : Nat} (sp : Speed) :
+    (hrank : S.FlatRank n) {fuel : Nat} (sp : Speed) :
     ∀ (steps nTicks : Nat) (m m' : MasterSt) (acc acc' : List TickRec),
       Corr S m.sim m'.sim → m.SameClock m' →
       acc.map (·.time) = acc'.map (·.time) → acc.map (·.real) = acc'.map (·.real) →
@@ -140,7 +185,7 @@ theorem masterRun_corr {S : Static} (hS : S.Valid) {orc : Oracle} {n : Nat} (hst
             split at h
             · cases h
             · rename_i sim2 out htick
-              obtain ⟨sim2', out', htick', hc2⟩ := corr_tick hS hst hc hfw hfw' htick
+              obtain ⟨sim2', out', htick', hc2⟩ := corr_tick hS hst hrank hc hfw hfw' htick
               rw [htick']
               simp only []
               rw [← dueReal_congr hclk sp w]
